@@ -8,5 +8,5 @@ export PYTHONPATH=/repo PYTHONHASHSEED=0 PYTHONWARNINGS=ignore
 /venv/bin/python translator/units.py /verif/coq/Gen > build/translator_status.json 2> >(grep -v conda.cli >&2) || true
 cd coq
 coq_makefile -f _CoqProject -o Makefile $(ls Model/*.v Proofs/*.v Gen/*.v Props/*.v Harness/*.v 2>/dev/null) > /dev/null
-timeout 3000 make -j16 > ../build/setup_make.log 2>&1 || { tail -30 ../build/setup_make.log; echo "setup: coq build failed (checks will report)"; }
+timeout 3000 make -k -j16 > ../build/setup_make.log 2>&1 || { tail -30 ../build/setup_make.log; echo "setup: coq build failed (checks will report)"; }
 echo setup done
